@@ -13,7 +13,9 @@ from vf.props.rt_common import innermost_frame
 ID = "C12"
 LEVEL = "exploration"
 ALPHABET = ["a", "1", "_", "'", "-", ".", '"', "\\", "$", "{", " ", "\n", "\r", "é"]
-DIRECTED = [('"a"', "b"), ('"x y"', "k"), ('"a"', "b", "c"), ("a.b", "c"), ("p.q.r", "s"), ("${v}", "b"), ("a${v}", "b", "c"), ("a.b", "c.d", "e"), ('"', "x"), ("\\", "x"), ("a\nb", "c")]
+DIRECTED = [('"a"', "b"), ('"x y"', "k"), ('"a"', "b", "c"), ("a.b", "c"), ("p.q.r", "s"), ("${v}", "b"), ("a${v}", "b", "c"), ("a.b", "c.d", "e"), ('"', "x"), ("\\", "x"), ("a\nb", "c"),
+            # names that are not in a Unicode normal form: Nix compares attribute names byte for byte
+            ("cafe\u0301",), ("caf\u00e9",), ("\u2126",), ("\u03a9",), ("\u212a", "x"), ("p", "e\u0301"), ("\u037e",), ("\ufb01",)]
 KEYWORDS = ["if", "then", "else", "assert", "with", "let", "in", "rec", "inherit", "or", "true", "false", "null", "import"]
 RULE = (
     "(a) every string of length 1..4 over the 14-symbol critical alphabet (a 1 _ ' - . \" \\ $ { space \\n \\r é) = 41 370 names "
@@ -325,7 +327,7 @@ def run_shard(sh):
         run_names(sh, DIRECTED, "directed")
 
     examples = int(sh.params["examples"] * sh.params.get("scale", 1.0))
-    crit = st.sampled_from(ALPHABET + ["${", "${x}", "\\${", "''", "\t", "/", "+", "@", "#", "日本", "=", ";", "\\n", "\\\\"] + KEYWORDS)
+    crit = st.sampled_from(ALPHABET + ["${", "${x}", "\\${", "''", "\t", "/", "+", "@", "#", "日本", "=", ";", "\\n", "\\\\", "e\u0301", "\u2126", "\u212a", "\u0301"] + KEYWORDS)
     name_st = st.one_of(st.lists(crit, min_size=0, max_size=8).map("".join), st.text(max_size=40).map(lambda s: s.replace("\x00", "")), st.sampled_from(KEYWORDS), st.sampled_from(["foo-bar", "a", "x'", "_", "a.b", "é", ""]))
     paths_st = st.lists(name_st, min_size=1, max_size=3)
 
